@@ -4,11 +4,20 @@
   a parameter; instantiated with the model's conjugation of one operator `(label, dual) ↦ (label, not dual)`
   (symmray/fermionic_local_operators.py `FermionicOperator.dag`, which builds an object and is not itself
   translated: recorded assumption) it is the model's `oddposDag` (Model/Fermi.lean).
-  `resolve_combined_oddpos` (a `while` loop over objects, `list.pop`) is outside the translated subset.
+  (S3) the label scan of `resolve_combined_oddpos` (`i = 0; while i < len(oddpos) - 1: …`) is translated as the fragment
+  `resolve_combined_oddpos.scan attr_label attr_dual obj_lt fuel oddpos phase` (`pyWhile` with explicit fuel; objects
+  seen through `.label`, `.dual` and their `__lt__`; `list.pop(i)` = `eraseIdx`; `raise ValueError` an error point)
+  and tied to the model's zipper scan `resolveScan` for EVERY fuel, list and phase (`scan_eq_resolveScan`): same labels,
+  same phase, same error, and out of fuel exactly when the model is.  With the fuel `n² + 2n + 4` that C04 proves
+  sufficient (`Proofs/Oddpos.lean resolveScan_fuel_ok`: measure 2·inversions + |post|) it never runs out
+  (`scan_fuel_ok`) and equals `mergeOddpos` (`scan_eq_mergeOddpos`).  The rest of `resolve_combined_oddpos` (reading
+  `left.oddpos`, `left.parity`, `new.phase_global(inplace=True)`, storing `new._oddpos`: object mutation) is not
+  translated.
   Not imported by SymmModel.lean; build with `lake build SymmModel.Gen.Tie`.
 -/
 import SymmModel.Gen.PyLemmas
 import SymmModel.Model.Fermi
+import SymmModel.Proofs.Oddpos
 
 namespace SymmModel.Gen
 open SymmModel
@@ -33,5 +42,218 @@ example : ∀ x : Int × Bool, (fun (p : Int × Bool) => (p.1, !p.2)) ((fun (p :
 
 example : oddpos_dag (fun (p : Int × Bool) => (p.1, !p.2)) [(1, true), (2, false)] = [(2, true), (1, false)] := by
   decide
+
+/-! ### (S3) the label scan of `resolve_combined_oddpos` -/
+
+abbrev Op := Int × Bool
+abbrev ScanSt := Int × List Op × Int
+
+/-- the loop test of the generated scan at the model's accessors -/
+def scanCond (st0 : ScanSt) : Bool :=
+  let (phase, oddpos, i) : ScanSt := st0
+  (decide (i < ((pyLen oddpos) - (1 : Int))))
+
+/-- the loop body of the generated scan at the model's accessors (`.label` = first component, `.dual` = second,
+    `__lt__` = `oddLt`) -/
+def scanBody (st0 : ScanSt) : Except PyExc ScanSt :=
+  let (phase, oddpos, i) : ScanSt := st0
+  let a : Op := (pyGet oddpos i)
+  let b : Op := (pyGet oddpos (i + (1 : Int)))
+  if (a.1 == b.1) then
+    (if (a.2 != b.2) then
+       (let phase : Int := if b.2 then (-phase) else phase
+        let oddpos : List Op := pyListPop oddpos i
+        let oddpos : List Op := pyListPop oddpos i
+        let i : Int := (max (0 : Int) (i - (1 : Int)))
+        (Except.ok (phase, oddpos, i)))
+     else
+       ((Except.error (PyExc.raised "ValueError"))))
+  else
+    (let (oddpos, i, phase) : (List Op × Int × Int) :=
+       if (oddLt b a) then
+         (pyListSet (pyListSet oddpos i b) (i + (1 : Int)) a, max (0 : Int) (i - (1 : Int)), -phase)
+       else
+         (oddpos, i + (1 : Int), phase)
+     (Except.ok (phase, oddpos, i)))
+
+/-- what the fragment returns from the final loop state -/
+def scanOut : Except PyExc ScanSt → Except PyExc (List Op × Int)
+  | .error e => .error e
+  | .ok (phase, oddpos, _) => .ok (oddpos, phase)
+
+/-- the generated fragment IS `i = 0`, the loop with this test and this body, then `(oddpos, phase)` -/
+theorem scan_unfold (fuel : Nat) (l : List Op) (ph : Int) :
+    resolve_combined_oddpos.scan (fun (p : Op) => p.1) (fun (p : Op) => p.2) oddLt fuel l ph
+      = scanOut (pyWhile fuel (ph, l, 0) scanCond scanBody) := by
+  unfold resolve_combined_oddpos.scan
+  extract_lets i
+  split
+  · rename_i e h
+    have h' : pyWhile fuel (ph, l, 0) scanCond scanBody = Except.error e := h
+    rw [h']; rfl
+  · rename_i p o i h
+    have h' : pyWhile fuel (ph, l, 0) scanCond scanBody = Except.ok (p, o, i) := h
+    rw [h']; rfl
+
+/-- the model's errors in the vocabulary of the translation: `Err.value` is the `raise ValueError`, `Err.other` is
+    the model's own "out of fuel" -/
+def excOfScan : Except Err (List Op × Int) → Except PyExc (List Op × Int)
+  | .ok r => .ok r
+  | .error Err.value => .error (.raised "ValueError")
+  | .error Err.other => .error .outOfFuel
+  | .error _ => .error (.raised "unreachable")  -- `resolveScan` throws nothing else
+
+theorem pyGet_at {α : Type} [Inhabited α] (P : List α) (x : α) (t : List α) :
+    pyGet (P ++ x :: t) (Int.ofNat P.length) = x := by
+  rw [pyGet_ofNat]; simp
+
+theorem pyGet_at1 {α : Type} [Inhabited α] (P : List α) (x y : α) (t : List α) :
+    pyGet (P ++ x :: y :: t) (Int.ofNat P.length + 1) = y := by
+  have : Int.ofNat P.length + 1 = Int.ofNat (P.length + 1) := rfl
+  rw [this, pyGet_ofNat]; simp
+
+theorem pyListPop_at {α : Type} (P : List α) (x : α) (t : List α) :
+    pyListPop (P ++ x :: t) (Int.ofNat P.length) = P ++ t := by
+  unfold pyListPop
+  have h0 : (0 : Int) ≤ Int.ofNat P.length := Int.natCast_nonneg _
+  rw [if_pos h0]
+  clear h0
+  show (P ++ x :: t).eraseIdx P.length = _
+  induction P with
+  | nil => rfl
+  | cons p ps ih => simp only [List.cons_append, List.length_cons, List.eraseIdx_cons_succ, ih]
+
+theorem pyListSet_at {α : Type} (P : List α) (x v : α) (t : List α) :
+    pyListSet (P ++ x :: t) (Int.ofNat P.length) v = P ++ v :: t := by
+  unfold pyListSet
+  have h0 : (0 : Int) ≤ Int.ofNat P.length := Int.natCast_nonneg _
+  rw [if_pos h0]
+  clear h0
+  show (P ++ x :: t).set P.length v = _
+  induction P with
+  | nil => rfl
+  | cons p ps ih => simp only [List.cons_append, List.length_cons, List.set_cons_succ, ih]
+
+theorem pyListSet_at1 {α : Type} (P : List α) (x y v : α) (t : List α) :
+    pyListSet (P ++ x :: y :: t) (Int.ofNat P.length + 1) v = P ++ x :: v :: t := by
+  have h := pyListSet_at (P ++ [x]) y v t
+  simp only [List.length_append, List.length_cons, List.length_nil, List.append_assoc, List.cons_append,
+    List.nil_append] at h
+  exact h
+
+theorem scanCond_at (ph : Int) (P post : List Op) :
+    scanCond (ph, P ++ post, Int.ofNat P.length) = decide (2 ≤ post.length) := by
+  simp only [scanCond, pyLen, List.length_append, Int.ofNat_eq_natCast, decide_eq_decide]
+  omega
+
+/-- one iteration of the generated loop at a cursor: what it does to the zipper -/
+theorem scanBody_at (ph : Int) (pre : List Op) (a b : Op) (rest : List Op) :
+    scanBody (ph, pre.reverse ++ a :: b :: rest, Int.ofNat pre.length)
+      = if a.1 == b.1 then
+          (if a.2 != b.2 then
+            .ok (if b.2 then -ph else ph, pre.tail.reverse ++ (pre.head?.toList ++ rest), Int.ofNat pre.tail.length)
+           else .error (.raised "ValueError"))
+        else if oddLt b a then
+          .ok (-ph, pre.tail.reverse ++ (pre.head?.toList ++ b :: a :: rest), Int.ofNat pre.tail.length)
+        else .ok (ph, (a :: pre).reverse ++ b :: rest, Int.ofNat (a :: pre).length) := by
+  have hl : pre.length = pre.reverse.length := by simp
+  have hmax : max (0 : Int) (Int.ofNat pre.length - 1) = Int.ofNat pre.tail.length := by
+    cases pre with
+    | nil => rfl
+    | cons p ps => simp only [List.length_cons, List.tail_cons, Int.ofNat_eq_natCast]; omega
+  have hzip : ∀ X : List Op, pre.reverse ++ X = pre.tail.reverse ++ (pre.head?.toList ++ X) := by
+    intro X
+    cases pre with
+    | nil => rfl
+    | cons p ps => simp
+  simp only [scanBody]
+  rw [hl, pyGet_at, pyGet_at1, pyListPop_at, pyListPop_at, pyListSet_at, pyListSet_at1, ← hl, hmax]
+  by_cases h1 : (a.1 == b.1) = true
+  · by_cases h2 : (a.2 != b.2) = true
+    · simp only [h1, h2, if_true, hzip]
+    · have h2' : (a.2 != b.2) = false := by simpa using h2
+      simp only [h1, h2', if_true, Bool.false_eq_true, if_false]
+  · have h1' : (a.1 == b.1) = false := by simpa using h1
+    by_cases h3 : oddLt b a = true
+    · simp only [h1', h3, if_true, Bool.false_eq_true, if_false, hzip]
+    · have h3' : oddLt b a = false := by simpa using h3
+      simp only [h1', h3', Bool.false_eq_true, if_false, List.reverse_cons, List.append_assoc, List.cons_append,
+        List.nil_append, List.length_cons]
+      rfl
+
+/-- THE TIE: the generated loop, started at any cursor of any list with any fuel and phase, is the model's zipper
+    scan — same result, same error, out of fuel exactly when the model is -/
+theorem scan_zipper : ∀ (fuel : Nat) (pre post : List Op) (ph : Int),
+    scanOut (pyWhile fuel (ph, pre.reverse ++ post, Int.ofNat pre.length) scanCond scanBody)
+      = excOfScan (resolveScan fuel pre post ph) := by
+  intro fuel
+  induction fuel with
+  | zero => intro pre post ph; rw [OddposP.resolveScan_zero]; rfl
+  | succ f ih =>
+    intro pre post ph
+    have hl : pre.length = pre.reverse.length := by simp
+    unfold pyWhile
+    rw [hl, scanCond_at, ← hl]
+    match post with
+    | [] => simp [scanOut, excOfScan, OddposP.resolveScan_nil]
+    | [a] => simp [scanOut, excOfScan, OddposP.resolveScan_single]
+    | a :: b :: rest =>
+      have h2 : decide (2 ≤ (a :: b :: rest).length) = true := by simp
+      rw [h2, if_pos rfl, scanBody_at]
+      by_cases h1 : (a.1 == b.1) = true
+      · by_cases hd : (a.2 != b.2) = true
+        · rw [OddposP.resolveScan_annihilate f pre a b rest ph h1 hd]
+          simp only [h1, hd, if_true]
+          exact ih pre.tail (pre.head?.toList ++ rest) _
+        · have hd' : (a.2 != b.2) = false := by simpa using hd
+          rw [OddposP.resolveScan_clash f pre a b rest ph h1 hd']
+          simp only [h1, hd', if_true, Bool.false_eq_true, if_false]
+          rfl
+      · have h1' : (a.1 == b.1) = false := by simpa using h1
+        by_cases h3 : oddLt b a = true
+        · rw [OddposP.resolveScan_swap f pre a b rest ph h1' h3]
+          simp only [h1', h3, if_true, Bool.false_eq_true, if_false]
+          exact ih pre.tail (pre.head?.toList ++ b :: a :: rest) _
+        · have h3' : oddLt b a = false := by simpa using h3
+          rw [OddposP.resolveScan_fwd f pre a b rest ph h1' h3']
+          simp only [h1', h3', Bool.false_eq_true, if_false]
+          exact ih (a :: pre) (b :: rest) ph
+
+/-- the generated fragment (which starts with `i = 0`) = the model's scan from the left end, for every fuel -/
+theorem scan_eq_resolveScan (fuel : Nat) (l : List Op) (ph : Int) :
+    resolve_combined_oddpos.scan (fun (p : Op) => p.1) (fun (p : Op) => p.2) oddLt fuel l ph
+      = excOfScan (resolveScan fuel [] l ph) := by
+  rw [scan_unfold]
+  exact scan_zipper fuel [] l ph
+
+/-- with the fuel of the model (`n² + 2n + 4`, proved sufficient in C04) the generated loop never runs out -/
+theorem scan_fuel_ok (l : List Op) (ph : Int) :
+    resolve_combined_oddpos.scan (fun (p : Op) => p.1) (fun (p : Op) => p.2) oddLt
+      (l.length * l.length + 2 * l.length + 4) l ph ≠ .error .outOfFuel := by
+  rw [scan_eq_resolveScan]
+  have h := OddposP.resolveScan_fuel_ok l ph
+  cases hr : resolveScan (l.length * l.length + 2 * l.length + 4) [] l ph with
+  | ok r => simp [excOfScan]
+  | error e =>
+    rw [hr] at h
+    cases e <;> simp_all [excOfScan]
+
+/-- the generated scan on the concatenated labels with the model's fuel and starting phase = `mergeOddpos` -/
+theorem scan_eq_mergeOddpos (pa : Bool) (la lb : List Op) :
+    resolve_combined_oddpos.scan (fun (p : Op) => p.1) (fun (p : Op) => p.2) oddLt
+      ((la ++ lb).length * (la ++ lb).length + 2 * (la ++ lb).length + 4) (la ++ lb)
+      (if pa && lb.length % 2 == 1 then -1 else 1)
+      = excOfScan (OddposP.mergeOddpos pa la lb) := by
+  rw [scan_eq_resolveScan]; rfl
+
+example : resolve_combined_oddpos.scan (fun (p : Op) => p.1) (fun (p : Op) => p.2) oddLt 20
+    [(2, false), (1, false), (1, true)] 1 = .ok ([(2, false)], -1) := by
+  rw [scan_eq_resolveScan]; simp [resolveScan, excOfScan, oddLt, pure, Except.pure, throw, throwThe, MonadExceptOf.throw]
+example : resolve_combined_oddpos.scan (fun (p : Op) => p.1) (fun (p : Op) => p.2) oddLt 20
+    [(1, false), (1, false)] 1 = .error (.raised "ValueError") := by
+  rw [scan_eq_resolveScan]; simp [resolveScan, excOfScan, oddLt, pure, Except.pure, throw, throwThe, MonadExceptOf.throw]
+example : resolve_combined_oddpos.scan (fun (p : Op) => p.1) (fun (p : Op) => p.2) oddLt 2
+    [(2, false), (1, false)] 1 = .error .outOfFuel := by
+  rw [scan_eq_resolveScan]; simp [resolveScan, excOfScan, oddLt, pure, Except.pure, throw, throwThe, MonadExceptOf.throw]
 
 end SymmModel.Gen
